@@ -196,7 +196,7 @@ pub fn run(cfg: &Cfg, rep: &mut Report) {
                         let n_units = units.len();
                         let n_data: usize = units.iter().map(|u| u.len()).sum();
                         // list values and error values contribute several comma-separated elements
-                        let extra: usize = plan.units.iter().filter(|u| u.1).map(|u| scripts[u.0].emit.iter().map(|v| match v { Val::ListI32(x) => x.len() - 1, Val::Err(_) => 1, _ => 0 }).sum::<usize>()).sum();
+                        let extra: usize = plan.units.iter().filter(|u| u.1).map(|u| scripts[u.0].emit.iter().map(|v| match v { Val::ListI32(x) => x.len() - 1, Val::ArrList(x) => x.len() - 1, Val::Err(_) => 1, _ => 0 }).sum::<usize>()).sum();
                         if n_units != nq || n_data != nd + extra {
                             ctx.violation("C10:decoded-structure-differs", detail());
                         }
